@@ -98,7 +98,7 @@ def build_program_case(rng, n_blocks=None, allow=None, main_modes=('usr', 'sys',
         mpu[5] = (1 | 8 << 1, G.STACKS + 0x200, 1 << 8)
         mpu[6] = (1 | 9 << 1, G.STACKS + 0x400, 1 << 8)
         regs['sys'].update(G.mpu_sys(mpu, nu=rng.getrandbits(1)))
-        regs['sys']['sctlr'] = G.sctlr_value(m=1, a=0, u=1, te=te, v=0, br=1, ee=ee)
+        regs['sys']['sctlr'] = G.sctlr_value(m=1, a=0, u=1, te=te, v=0, br=1, ee=ee) | (regs['sys']['sctlr'] & 1 << 24)
     if cfg['have_security_ext'] and not hyp_route and rng.random() < 0.5:
         # Security Extensions routing: IRQ and/or FIQ are taken to Monitor mode (handlers behind MVBAR), from a Secure or Non-secure main program
         scr = rng.choice([2, 4, 6]) | rng.getrandbits(1) | rng.getrandbits(2) << 4
@@ -153,7 +153,7 @@ def gen_irq_return(rng):
             mpu = [(0, 0, 0)] * 12
             mpu[0] = (1 | 31 << 1, 0, 3 << 8)
             sysr.update(G.mpu_sys(mpu))
-            sysr['sctlr'] = G.sctlr_value(m=1, a=0, u=1, te=meta['te'], v=0, br=1, ee=meta.get('ee', 0))
+            sysr['sctlr'] = G.sctlr_value(m=1, a=0, u=1, te=meta['te'], v=0, br=1, ee=meta.get('ee', 0)) | (sysr['sctlr'] & 1 << 24)
         which = rng.choice(['irq', 'irq', 'fiq'])
         for nme, v in (('drsrs', 7 << 1), ('drbars', G.STACKS + (0x300 if which == 'irq' else 0x200)), ('dracrs', 0)):
             sysr[nme] = list(sysr[nme])
